@@ -236,6 +236,14 @@ def step (d : Drv) (line : String) : Drv × String :=
         let (s, e) := s.send { id := id, size := size, src := src, tat := parseTat tat, instr := parseBool instr }
         (s, match e with | some e => s!"exc {e.name}" | none => "ok")
     | _, _, _, _ => (d, "bad-op")
+  | ["genclose", i, id] =>
+    -- the environment closes the user generator of request `id`: whatever it had still to yield is gone (`src := []`)
+    match i.toNat?, id.toNat? with
+    | some i, some id =>
+      onLayer d i fun s =>
+        let cut := fun (r : Req) => if r.id = id then { r with src := [] } else r
+        ({ s with active := s.active.map cut, txQueue := s.txQueue.map cut }, "ok")
+    | _, _ => (d, "bad-op")
   | ["frame", i, dt, id, ext, hex] =>
     match i.toNat?, dt.toNat?, id.toNat?, parseHex hex with
     | some i, some dt, some id, some data =>
